@@ -11,7 +11,7 @@ THEOREMS = ['Tbox.C13.' + t for t in [
     'C13_one_prompt_per_enter',
     'C13_history', 'C13_history_never_stored', 'C13_history_rerun',
     'C13_total', 'C13_total_legacy_counterexample',
-    'C13_sessions_independent',
+    'C13_sessions_independent', 'C13_teardown_drops_queued',
     'C13_telnet_resumable', 'C13_telnet_in_bounds', 'C13_telnet_legacy_counterexample',
     'C13_split_unbalanced', 'C13_split_words', 'C13_split_quoted',
 ]]
